@@ -121,16 +121,41 @@ func complete(c *harness.C, what string, k cell, shares map[uint16][]byte, vecs 
 				return
 			}
 		}
-		var pr ps.Prover
+		pr, v := &ps.Prover{}, &ps.Verifier{}
 		pr.Logger = world.NopLogger{}
 		if err := pr.Init(cryptolib.Curve, k.l, pk0, cryptolib.IDs(k.n)); err != nil {
 			res = bad("prover-init", "c08-prover-init", err.Error())
 			return
 		}
-		var v ps.Verifier
 		if err := v.Init(cryptolib.Curve, k.l, pk0); err != nil {
 			res = bad("verifier-init", "c08-verifier-init", err.Error())
 			return
+		}
+		// the same Prover and Verifier objects follow another committee's key and come back (a
+		// committee that re-keys): every initialisation starts from a clean slate
+		{
+			oshares, oerrs := cryptolib.DKG("ps", 2, 2, k.l, nil, 20*time.Second)
+			if oerrs[1] == nil && oerrs[2] == nil {
+				if osg, err := cryptolib.PSSigners(2, 2, k.l, oshares); err == nil {
+					opk, _ := osg[1].ThresholdPK()
+					if err := pr.Init(cryptolib.Curve, k.l, opk, cryptolib.IDs(2)); err != nil {
+						res = bad("prover-init", "c08-prover-init:re-initialised", fmt.Sprintf("second initialisation of the prover object (another committee's key): %v", err))
+						return
+					}
+					if err := v.Init(cryptolib.Curve, k.l, opk); err != nil {
+						res = bad("verifier-init", "c08-verifier-init:re-initialised", fmt.Sprintf("second initialisation of the verifier object (another committee's key): %v", err))
+						return
+					}
+					if err := pr.Init(cryptolib.Curve, k.l, pk0, cryptolib.IDs(k.n)); err != nil {
+						res = bad("prover-init", "c08-prover-init:re-initialised", fmt.Sprintf("third initialisation of the prover object (back to the first key): %v", err))
+						return
+					}
+					if err := v.Init(cryptolib.Curve, k.l, pk0); err != nil {
+						res = bad("verifier-init", "c08-verifier-init:re-initialised", fmt.Sprintf("third initialisation of the verifier object (back to the first key): %v", err))
+						return
+					}
+				}
+			}
 		}
 		for _, vec := range vecs {
 			req, secret := pr.Blind(msgOf(vec))
